@@ -3,4 +3,5 @@
 From SKV Require Import Misc.LockParams Misc.Lock.
 
 Definition current : variant :=
-  {| trunc_on_open := LOCK_TRUNC_ON_OPEN; subdirs_before_lock := LOCK_SUBDIRS_BEFORE_LOCK |}.
+  {| trunc_on_open := LOCK_TRUNC_ON_OPEN; subdirs_before_lock := LOCK_SUBDIRS_BEFORE_LOCK;
+     detached_drop_closes := LOCK_DETACHED_DROP_CLOSES |}.
